@@ -324,8 +324,10 @@ class Failure:
 
 
 class Ctx:
-    def __init__(self, name="h", D=1, timeout_ms=60000, seed=0, mod_range=4):
+    def __init__(self, name="h", D=1, timeout_ms=60000, seed=0, mod_range=4, sort="R", fp_bits=64):
         self.name = name
+        self.sort = sort
+        self.fp_bits = fp_bits
         self.D = D
         self.timeout_ms = timeout_ms
         self.seed = seed
@@ -379,10 +381,10 @@ class Ctx:
     def constraints(self):
         return self.assume + self.defs + self.path
 
-    def check(self, extra=(), timeout_ms=None):
+    def check(self, extra=(), timeout_ms=None, links=False, feasibility=False):
         fs = self.constraints() + list(extra)
         t0 = time.time()
-        res, model = solve(fs, self, timeout_ms or self.timeout_ms)
+        res, model = solve(fs, self, timeout_ms or self.timeout_ms, links=links, feasibility=feasibility)
         self.stats.queries += 1
         self.stats.solver_time += time.time() - t0
         if res == "unknown":
@@ -417,7 +419,7 @@ class Ctx:
             c = simp(c)
             if z3.is_false(c):
                 continue
-            res, _ = self.check([c])
+            res, _ = self.check([c], feasibility=True)
             if res == "unknown":
                 self.inconclusive.append(("feasibility", str(c)[:200]))
                 raise Inconclusive(f"feasibility of a branch is unknown: {str(c)[:120]}")
@@ -467,13 +469,55 @@ class Ctx:
         if res == "unknown":
             self.inconclusive.append((label, _clip(str(goal), 200)))
             return False
-        env = model_env(model, self)
+        env = self.real_point(model, [z3.Not(goal)])
+        if env is None:
+            # spurious model (exp companions inconsistent with their variables):
+            # refine with the full set of order links and ask again
+            res, model = self.check([z3.Not(goal)], links=True)
+            if res == "unsat":
+                st.discharged += 1
+                bl[1] += 1
+                return True
+            if res == "unknown":
+                self.inconclusive.append((label, _clip(str(goal), 200)))
+                return False
+            env = self.real_point(model, [z3.Not(goal)]) or model_env(model, self)
         self.failures.append(
             Failure(label, goal, env, len(self.path), detail)
         )
         if self.stop_on_failure:
             raise PathCut()
         return False
+
+    def real_point(self, model, extra):
+        """Turn a model into a real point of the log-space problem: either
+        x := D*ln(E) or E := exp(x/D); the candidate is accepted only if the
+        constraints and `extra` evaluate to true in floats with the true
+        exp/log.  None if neither candidate is a real point."""
+        fs = self.constraints() + list(extra)
+        a = model_env(model, self, prefer="E")
+        if not self.exp_atoms:
+            return a
+        cands = [a, model_env(model, self, prefer="x")]
+        undecided = None
+        for env in cands:
+            ok = True
+            for f in fs:
+                try:
+                    v = numeval(f, env, self.notes.get("fns"), self.D, self.exp_names, approx=True)
+                except HarnessError:
+                    undecided = undecided or env
+                    ok = None
+                    break
+                except (OverflowError, ValueError, ZeroDivisionError):
+                    ok = False
+                    break
+                if v is not True:
+                    ok = False
+                    break
+            if ok:
+                return env
+        return undecided
 
     def input_vars(self, extra_terms=()):
         out = {}
@@ -575,6 +619,15 @@ def explore(harness, ctx: Ctx, max_paths=100000, deadline=None):
     """DFS over decision vectors with re-execution of `harness(ctx)`."""
     stack = [[]]
     set_cur(ctx)
+    import sx as _sx
+
+    old_ops = _sx.OPS
+    if ctx.sort == "F":
+        from . import fp as _fp
+
+        _sx.set_ops(_fp.FOps(ctx.fp_bits))
+    else:
+        _sx.set_ops(_sx._ROps())
     try:
         while stack:
             if ctx.stats.paths + ctx.stats.cut_paths >= max_paths:
@@ -599,6 +652,7 @@ def explore(harness, ctx: Ctx, max_paths=100000, deadline=None):
                 break
     finally:
         set_cur(None)
+        _sx.set_ops(old_ops)
     return ctx
 
 
@@ -745,7 +799,7 @@ def _walk(ts):
 _CMP = {z3.Z3_OP_LE, z3.Z3_OP_GE, z3.Z3_OP_LT, z3.Z3_OP_GT, z3.Z3_OP_EQ}
 
 
-def lemma_instances(fs, ctx: Ctx):
+def lemma_instances(fs, ctx: Ctx, links=False):
     """Finitely many true facts about the special functions, instantiated on
     the applications that occur (DESIGN 2.3).  Returns new formulas; iterates
     to a fixed point because lemmas may mention new applications."""
@@ -864,7 +918,7 @@ def lemma_instances(fs, ctx: Ctx):
             for y in range(x + 1, len(eat)):
                 a1, e1 = eat[x]
                 a2, e2 = eat[y]
-                if is_var(a1) and is_var(a2):
+                if is_var(a1) and is_var(a2) and not links:
                     continue
                 key = ("E", a1.get_id(), a2.get_id())
                 if key in done_pairs:
@@ -979,9 +1033,35 @@ def _is_nonlinear(fs):
     return False
 
 
-def solve(fs, ctx: Ctx, timeout_ms):
+def solve(fs, ctx: Ctx, timeout_ms, links=False, feasibility=False):
     fs = [f for f in fs if not z3.is_true(f)]
-    lem = lemma_instances(fs, ctx)
+    if ctx.sort == "F":
+        from . import fp as _fp
+
+        if not ctx.notes.get("fp_exact_only"):
+            afs, axioms, n_abs = _fp.fp_abstract(fs)
+            if n_abs:
+                s = z3.Solver()
+                s.set("timeout", int(timeout_ms))
+                s.set("random_seed", int(ctx.seed))
+                s.add(*afs)
+                s.add(*axioms)
+                res = str(s.check())
+                ctx.stats.fp_abstract_queries = getattr(ctx.stats, "fp_abstract_queries", 0) + 1
+                if res == "unsat":
+                    ctx.stats.fp_abstract_unsat = getattr(ctx.stats, "fp_abstract_unsat", 0) + 1
+                    return "unsat", None
+                if feasibility:
+                    # over-approximate feasibility: exploring an infeasible path
+                    # only adds vacuously true obligations
+                    return "sat", ((s.model(), {}) if res == "sat" else None)
+        s = z3.Solver()
+        s.set("timeout", int(timeout_ms))
+        s.set("random_seed", int(ctx.seed))
+        s.add(*fs)
+        res = str(s.check())
+        return res, ((s.model(), {}) if res == "sat" else None)
+    lem = lemma_instances(fs, ctx, links=links)
     pfs, table = purify(fs + lem)
     nonlin = _is_nonlinear(pfs)
     ints = _has_int(pfs)
@@ -1018,10 +1098,11 @@ def solve(fs, ctx: Ctx, timeout_ms):
 # models -> environments; float evaluation of terms
 
 
-def model_env(model, ctx: Ctx):
+def model_env(model, ctx: Ctx, prefer="E"):
     """Concrete environment {variable name: float} from a model.  Variables
-    that have an exp companion get D*ln(E) so that the environment is a real
-    point of the log-space problem."""
+    that have an exp companion get D*ln(E) (prefer="E"), or the companion gets
+    exp(x/D) (prefer="x"), so that the environment is a real point of the
+    log-space problem."""
     m, table = model
     env = {}
     for d in m.decls():
@@ -1030,10 +1111,20 @@ def model_env(model, ctx: Ctx):
         v = m[d]
         env[d.name()] = _val(v)
     for _, (atom, e) in ctx.exp_atoms.items():
-        ev = m.eval(e, model_completion=True)
-        x = _val(ev)
-        if x is not None and x > 0 and is_var(atom):
-            env[atom.decl().name()] = ctx.D * math.log(x)
+        if not is_var(atom):
+            continue
+        if prefer == "E":
+            x = _val(m.eval(e, model_completion=True))
+            if x is not None and x > 0:
+                env[atom.decl().name()] = ctx.D * math.log(x)
+        else:
+            x = _val(m.eval(atom, model_completion=True))
+            if x is not None:
+                try:
+                    env[e.decl().name()] = math.exp(x / ctx.D)
+                    env[atom.decl().name()] = x
+                except OverflowError:
+                    pass
     env["__purified__"] = {
         str(orig): _val(m.eval(c, model_completion=True)) for (c, orig) in table.values()
     }
@@ -1043,6 +1134,10 @@ def model_env(model, ctx: Ctx):
 def _val(v):
     if v is None:
         return None
+    if z3.is_fp_value(v):
+        from .fp import fp_value
+
+        return fp_value(v)
     if z3.is_rational_value(v) or z3.is_int_value(v):
         f = frac(v)
         try:
@@ -1058,7 +1153,7 @@ def _val(v):
     return None
 
 
-def numeval(t, env, fns=None, D=1, exp_names=None):
+def numeval(t, env, fns=None, D=1, exp_names=None, approx=False):
     """Evaluate a term in floats.  env: variable name -> float.  E!-constants
     are evaluated as exp(atom/D) with the atom looked up in `exp_names`;
     special functions by `math`; user functions by `fns[name](*args)`."""
@@ -1137,6 +1232,17 @@ def numeval(t, env, fns=None, D=1, exp_names=None):
             return a[0] ** a[1]
         if k == z3.Z3_OP_ITE:
             return a[1] if a[0] else a[2]
+        if approx and k in _CMP and not isinstance(a[0], bool):
+            tol = 1e-9 * max(1.0, abs(a[0]), abs(a[1]))
+            if k == z3.Z3_OP_LE:
+                return a[0] <= a[1] + tol
+            if k == z3.Z3_OP_GE:
+                return a[0] >= a[1] - tol
+            if k == z3.Z3_OP_LT:
+                return a[0] < a[1] + tol
+            if k == z3.Z3_OP_GT:
+                return a[0] > a[1] - tol
+            return abs(a[0] - a[1]) <= tol
         if k == z3.Z3_OP_LE:
             return a[0] <= a[1]
         if k == z3.Z3_OP_GE:
